@@ -32,6 +32,9 @@ pub struct Sc {
     /// `..`: only the entries below it are acted on)
     #[serde(default)]
     pub mindepth1: bool,
+    /// -H / -L before the starting points (only without racing mutations)
+    #[serde(default)]
+    pub follow: Option<String>,
 }
 
 const CMD2: &str = "CMD2";
@@ -41,7 +44,8 @@ const OK: &[u8] = b"\x01OK";
 
 impl Sc {
     fn render(&mut self) {
-        let mut a = self.starts.clone();
+        let mut a: Vec<String> = self.follow.iter().cloned().collect();
+        a.extend(self.starts.iter().cloned());
         if self.sorted {
             a.push("-sorted".into());
         }
@@ -250,6 +254,11 @@ impl Property for C09 {
             }
         }
         let mut after = vec![];
+        if !mutate && rng.chance(1, 4) {
+            // a name test written after the action: the command still runs for every file
+            // that reaches it, whatever the test says afterwards
+            after.extend([rng.pick(&["-name", "-iname", "-path"]).to_string(), rng.pick(&["*a*", "*b*", "[c-z]*", "*/t/*", "*.txt"]).to_string()]);
+        }
         if mutate {
             // children that change the tree they are run on
             let paths = paths_of(&find.tree);
@@ -289,6 +298,7 @@ impl Property for C09 {
             templates,
             after,
             mindepth1,
+            follow: if !mutate && rng.chance(1, 5) { Some(rng.pick(&["-L", "-H"]).to_string()) } else { None },
             second: if rng.chance(1, 4) { Some((rng.chance(1, 2), rng.pick(&["{}", "{}", "x{}y", "{}{}"]).to_string())) } else { None },
         };
         sc.render();
@@ -315,9 +325,13 @@ impl Property for C09 {
         let mut rw = RefWalk::default();
         // the reference walk is needed after mutations, and - when the expression has no test
         // before the action - to know that every entry must reach it
-        if mutated || sc.tests.is_empty() {
+        if mutated || sc.tests.is_empty() || sc.follow.is_some() {
             let wcfg = WalkCfg {
-                follow: FollowMode::P,
+                follow: match sc.follow.as_deref() {
+                    Some("-L") => FollowMode::L,
+                    Some("-H") => FollowMode::H,
+                    _ => FollowMode::P,
+                },
                 mindepth: usize::from(sc.mindepth1),
                 maxdepth: usize::MAX,
                 depth_first: sc.depth,
@@ -556,7 +570,12 @@ impl Property for C09 {
             }
         }
         // find's own exit status is unaffected by failing or missing commands
-        if !mutated {
+        if sc.follow.is_some() {
+            rep.probe("follow_mode");
+        }
+        if !mutated && sc.follow.is_some() && (rw.diag_owed || !rw.may.is_empty()) {
+            // a link that cannot be resolved or closes a cycle: the status is C02's business
+        } else if !mutated {
             if obs.status != RunStatus::Exit(0) {
                 rep.fail(
                     "C09.exit-status-changed-by-command",
@@ -644,6 +663,11 @@ impl Property for C09 {
             s.second = None;
             push(s);
         }
+        if sc.follow.is_some() {
+            let mut s = sc.clone();
+            s.follow = None;
+            push(s);
+        }
         if sc.depth {
             let mut s = sc.clone();
             s.depth = false;
@@ -709,7 +733,7 @@ impl Property for C09 {
     fn assumptions() -> Vec<&'static str> {
         vec![
             "which entries reach the action is observed (a -print0 marker right before it), not predicted: expression semantics belongs to C01",
-            "-P only; directory components of a printed path are therefore real directories and the parent directory is the lexical one",
+            "the parent directory of a path is the lexical one (also under -H/-L, where a component may be a followed link)",
             "after a child changed the tree, only entries outside the affected subtree are demanded",
         ]
     }
